@@ -1,6 +1,7 @@
 import Varint.Lemmas.PackedSeq
 import Varint.Lemmas.Packed
 import Varint.Bridge.Packed
+import Varint.Bridge.Packed13
 /-
   C09 — packed bit arrays: element isolation and sorted-array semantics.
   `S` = slot width, `b` = value width, `ws` = the slot array, element `i` = bits [i*b, i*b+b) of the
@@ -302,6 +303,130 @@ theorem c_packed12_incr_half (ws : List Nat) (hw : WordsOK 32 ws) (i j d : Nat) 
     · exact (val_set 32 12 i _ ws (by omega) (by omega) (by omega) hw hf).2.1
   rw [packed12SetIncr_eq ws hw i d hi hd, packed12SetHalf_eq ws hw i hi, packed12Get_eq _ hok1 i hi,
     packed12Get_eq _ hok1 j hj, packed12Get_eq _ hok2 i hi, packed12Get_eq _ hok2 j hj]
+  exact ⟨a, b, c, e⟩
+
+/-! ## the same on a second instantiation of src/varintPacked.h whose width does not divide the slot (13-bit values, uint32_t slots,
+    `varintPacked13*`), machine-translated from the CURRENT header (Varint.Gen.C.packed13*; bridge theorems in
+    Varint/Bridge/Packed.lean). `memOf ws` is the slot array seen as memory, `applyStores ws st` the array after the
+    C's stores. -/
+open Varint.Gen.C Varint.Bridge Varint.Bridge.Bits Varint.Bridge.Packed13 in
+/-- **element isolation on the translated C**: after `varintPacked13Set(dst, i, v)` — whose stores all fall inside the
+    slot array — `varintPacked13Get` returns `v` at `i` and the old value at every other index; every storage bit outside
+    the element is unchanged -/
+theorem c_packed13_set_get (ws : List Nat) (hw : WordsOK 32 ws) (i v : Nat) (hi : i < 2 ^ 32) (hv : v < 2 ^ 13)
+    (hf : Fits 32 13 i ws) :
+    (∀ p ∈ packed13Set (memOf ws) i v, p.1 < ws.length) ∧
+    packed13Get (memOf (applyStores ws (packed13Set (memOf ws) i v))) i = v ∧
+    (∀ j, j ≠ i → j < 2 ^ 32 →
+      packed13Get (memOf (applyStores ws (packed13Set (memOf ws) i v))) j = packed13Get (memOf ws) j) ∧
+    (∀ p, (p < i * 13 ∨ i * 13 + 13 ≤ p) →
+      (val 32 (applyStores ws (packed13Set (memOf ws) i v))).testBit p = (val 32 ws).testBit p) := by
+  have hset := packed13Set_eq ws hw i v hi hv
+  obtain ⟨_, hok, _⟩ := val_set 32 13 i v ws (by omega) (by omega) hv hw hf
+  refine ⟨packed13Set_inrange ws (memOf ws) (memOf_lt32 ws hw) i v hi hv hf, ?_, ?_, ?_⟩
+  · rw [hset, packed13Get_eq _ hok i hi]
+    exact packed_get_set 32 13 i v ws (by omega) (by omega) hv hw hf
+  · intro j hji hj
+    rw [hset, packed13Get_eq _ hok j hj, packed13Get_eq ws hw j hj]
+    exact packed_set_other 32 13 i j v ws (by omega) (by omega) hv hw hf (fun e => hji e.symm) (by omega)
+  · intro p hp
+    rw [hset]
+    exact (packed_bits_outside 32 13 i v ws (by omega) (by omega) hv hw hf p hp).1
+
+open Varint.Gen.C Varint.Bridge Varint.Bridge.Bits Varint.Bridge.Packed13 in
+/-- **sorted-array semantics on the translated C** (`varintPacked13Member`): on a sorted array of `len` < 2^31 elements
+    the result is non-negative exactly when the value is present, and then it is the index of the FIRST equal element -/
+theorem c_packed13_member (ws : List Nat) (hw : WordsOK 32 ws) (len v : Nat) (hlen : len < 2 ^ 31)
+    (hsorted : (elems 32 13 ws len).Pairwise (· ≤ ·)) (fuel : Nat) (hfu : len < fuel) :
+    ∃ r : Int, packed13Member fuel (memOf ws) len v = some r ∧ (r ≥ 0 ↔ v ∈ elems 32 13 ws len) ∧
+      (r ≥ 0 → ∃ m : Nat, r = (m : Int) ∧ m < len ∧ packed13Get (memOf ws) m = v ∧
+        ∀ k, k < m → packed13Get (memOf ws) k ≠ v) ∧ (v ∉ elems 32 13 ws len → r = -1) := by
+  obtain ⟨h1, h2, h3⟩ := packed_member_spec 32 13 ws len v hsorted
+  refine ⟨_, packed13Member_eq ws hw len v hlen fuel hfu, h1, ?_, h3⟩
+  intro hr
+  obtain ⟨m, e, hm, hg, hfirst⟩ := h2 hr
+  refine ⟨m, e, hm, ?_, ?_⟩
+  · rw [packed13Get_eq ws hw m (by omega)]; exact hg
+  · intro k hk; rw [packed13Get_eq ws hw k (by omega)]; exact hfirst k hk
+
+open Varint.Gen.C Varint.Bridge Varint.Bridge.Bits Varint.Bridge.Packed13 in
+/-- **`varintPacked13InsertSorted` on the translated C**: every store falls inside the slot array, and the array it
+    leaves is sorted and holds exactly one more copy of `v` -/
+theorem c_packed13_insert_sorted (ws : List Nat) (hw : WordsOK 32 ws) (len v : Nat) (hlen : len < 2 ^ 31)
+    (hf : FitsN 32 13 ws (len + 1)) (hv : v < 2 ^ 13) (hsorted : (elems 32 13 ws len).Pairwise (· ≤ ·))
+    (fuel : Nat) (hfu : len < fuel) :
+    ∃ st, packed13InsertSorted fuel (memOf ws) len v = some st ∧ (∀ p ∈ st, p.1 < ws.length) ∧
+      (elems 32 13 (applyStores ws st) (len + 1)).Pairwise (· ≤ ·) ∧
+      (elems 32 13 (applyStores ws st) (len + 1)).Perm (v :: elems 32 13 ws len) := by
+  obtain ⟨st, h1, h2, h3⟩ := packed13InsertSorted_eq ws hw len v hlen hf hv fuel hfu
+  obtain ⟨hs, hp⟩ := packed_insert_sorted 32 13 (by omega) (by omega) ws len v hw hf hv hsorted
+  exact ⟨st, h1, h2, by rw [h3]; exact hs, by rw [h3]; exact hp⟩
+
+open Varint.Gen.C Varint.Bridge Varint.Bridge.Bits Varint.Bridge.Packed13 in
+/-- **`varintPacked13Insert` / `varintPacked13Delete` on the translated C** refine `List.insertIdx` / `List.eraseIdx`
+    on the element list; all stores inside the slot array -/
+theorem c_packed13_insert_delete (ws : List Nat) (hw : WordsOK 32 ws) (len off v : Nat) (hlen : len < 2 ^ 32 - 1)
+    (hv : v < 2 ^ 13) (fuel : Nat) (hfu : len < fuel) :
+    (off ≤ len → FitsN 32 13 ws (len + 1) →
+      ∃ st, packed13Insert fuel (memOf ws) len off v = some st ∧ (∀ p ∈ st, p.1 < ws.length) ∧
+        elems 32 13 (applyStores ws st) (len + 1) = (elems 32 13 ws len).insertIdx off v) ∧
+    (off < len → FitsN 32 13 ws len →
+      ∃ st, packed13Delete fuel (memOf ws) len off = some st ∧ (∀ p ∈ st, p.1 < ws.length) ∧
+        elems 32 13 (applyStores ws st) (len - 1) = (elems 32 13 ws len).eraseIdx off) := by
+  constructor
+  · intro hoff hf
+    obtain ⟨st, h1, h2, h3⟩ := packed13Insert_eq ws hw len off v hoff (by omega) hf hv fuel (by omega)
+    exact ⟨st, h1, h2, by rw [h3]; exact (packed_insert_refines 32 13 (by omega) (by omega) ws len off v hoff hw hf hv).1⟩
+  · intro hoff hf
+    obtain ⟨st, h1, h2, h3⟩ := packed13Delete_eq ws hw len off hoff (by omega) hf fuel (by omega)
+    exact ⟨st, h1, h2, by rw [h3]; exact (packed_delete_refines 32 13 (by omega) (by omega) ws len off hoff hw hf).1⟩
+
+open Varint.Gen.C Varint.Bridge Varint.Bridge.Bits Varint.Bridge.Packed13 in
+/-- **`varintPacked13DeleteMember` on the translated C**: present ⇒ true and the first occurrence is erased, the rest
+    stays sorted; absent ⇒ false and not a single store -/
+theorem c_packed13_delete_member (ws : List Nat) (hw : WordsOK 32 ws) (len v : Nat) (hlen : len < 2 ^ 31)
+    (hf : FitsN 32 13 ws len) (hsorted : (elems 32 13 ws len).Pairwise (· ≤ ·)) (fuel : Nat) (hfu : len < fuel) :
+    ∃ r st, packed13DeleteMember fuel (memOf ws) len v = some (r, st) ∧ (∀ p ∈ st, p.1 < ws.length) ∧
+      (v ∈ elems 32 13 ws len → r = 1 ∧
+        elems 32 13 (applyStores ws st) (len - 1) = (elems 32 13 ws len).erase v ∧
+        (elems 32 13 (applyStores ws st) (len - 1)).Pairwise (· ≤ ·)) ∧
+      (v ∉ elems 32 13 ws len → r = 0 ∧ applyStores ws st = ws) := by
+  obtain ⟨r, st, h1, h2, h3, h4⟩ := packed13DeleteMember_eq ws hw len v hlen hf fuel hfu
+  obtain ⟨hin, hout⟩ := packed_delete_member 32 13 (by omega) (by omega) ws len v hw hf hsorted
+  refine ⟨r, st, h1, h2, ?_, ?_⟩
+  · intro hm
+    obtain ⟨a, b, c⟩ := hin hm
+    rw [← h3] at a b c
+    simp only [decide_eq_true_eq] at a
+    exact ⟨a, b, c⟩
+  · intro hm
+    have e := hout hm
+    rw [← h3] at e
+    have e1 := congrArg Prod.fst e
+    have e2 := congrArg Prod.snd e
+    simp only [decide_eq_false_iff_not] at e1 e2
+    exact ⟨by omega, e1⟩
+
+open Varint.Gen.C Varint.Bridge Varint.Bridge.Bits Varint.Bridge.Packed13 in
+/-- **`varintPacked13SetIncr` / `varintPacked13SetHalf` on the translated C** (non-negative increment whose result
+    fits): the addressed element becomes old + d, resp. old / 2, and every other element keeps its value -/
+theorem c_packed13_incr_half (ws : List Nat) (hw : WordsOK 32 ws) (i j d : Nat) (hi : i < 2 ^ 32) (hj : j < 2 ^ 32)
+    (hf : Fits 32 13 i ws) (hij : i ≠ j) (hd : packed13Get (memOf ws) i + d < 2 ^ 13) :
+    packed13Get (memOf (applyStores ws (packed13SetIncr (memOf ws) i (d : Int)))) i = packed13Get (memOf ws) i + d ∧
+    packed13Get (memOf (applyStores ws (packed13SetIncr (memOf ws) i (d : Int)))) j = packed13Get (memOf ws) j ∧
+    packed13Get (memOf (applyStores ws (packed13SetHalf (memOf ws) i))) i = packed13Get (memOf ws) i / 2 ∧
+    packed13Get (memOf (applyStores ws (packed13SetHalf (memOf ws) i))) j = packed13Get (memOf ws) j := by
+  rw [packed13Get_eq ws hw i hi] at hd ⊢
+  rw [packed13Get_eq ws hw j hj]
+  obtain ⟨a, b, c, e⟩ := packed_incr_half_local 32 13 i j d ws (by omega) (by omega) hw hf hij (by omega) hd
+  have hok1 : WordsOK 32 (setIncr 32 13 ws i d) := (val_set 32 13 i _ ws (by omega) (by omega) hd hw hf).2.1
+  have hok2 : WordsOK 32 (setHalf 32 13 ws i) := by
+    unfold setHalf
+    split
+    · exact hw
+    · exact (val_set 32 13 i _ ws (by omega) (by omega) (by omega) hw hf).2.1
+  rw [packed13SetIncr_eq ws hw i d hi hd, packed13SetHalf_eq ws hw i hi, packed13Get_eq _ hok1 i hi,
+    packed13Get_eq _ hok1 j hj, packed13Get_eq _ hok2 i hi, packed13Get_eq _ hok2 j hj]
   exact ⟨a, b, c, e⟩
 
 end Varint.Props.C09
